@@ -58,7 +58,7 @@ REAL_STUB = {
 BUDGET = {"quick": 25, "thorough": 600}
 NAMES = ("a", "b", "c")
 SIZES = (2, 0, 1, 3, -1, 400)
-KINDS = ("dict", "func-str", "func-triple", "fs", "fs2", "choice", "prefix")
+KINDS = ("dict", "func-str", "func-triple", "fs", "fs2", "choice", "prefix", "choice-fs")
 _VER = re.compile(r"^(\w+):v(\d+):7$")
 _setup_done = False
 
@@ -99,13 +99,13 @@ class Storage:
         self.mapping: dict[str, str] = {}
         self.files: dict[tuple[int, str], int] = {}
         self.cur: dict[str, int] = {}
-        self.ndirs = 2 if kind in ("fs2", "choice") else 1
+        self.ndirs = 2 if kind in ("fs2", "choice", "choice-fs") else 1
         self.dirs = [F.ROOT + f"t0d{i}" for i in range(self.ndirs)]
         self.mappings: list[dict[str, str]] = [{}, {}]  # kind 'choice': one mapping per delegate loader
 
     @property
     def is_fs(self) -> bool:
-        return self.kind in ("fs", "fs2")
+        return self.kind in ("fs", "fs2", "choice-fs")
 
     def src(self, name: str, v: int) -> str:
         return f"{name}:v{v}:{{{{ x }}}}"
@@ -180,7 +180,20 @@ class Storage:
                     return None
                 return s, None, (lambda: m.get(name) == s)
             return jinja2.FunctionLoader(load)
+        if self.kind == "choice-fs":
+            # a failing delegate (I/O error) must not make the choice fall through to the shadowed copy
+            return jinja2.ChoiceLoader([jinja2.FileSystemLoader(d_) for d_ in self.dirs])
         return jinja2.FileSystemLoader(self.dirs[0] if self.ndirs == 1 else list(self.dirs))
+
+    def rebind(self, drop=None) -> None:
+        """A NEW mapping object (same storage generation): every name gets a new version, `drop` disappears."""
+        old = dict(self.files)
+        self.files = {}
+        self.cur = {}
+        self.mapping = {}
+        for (di, name) in old:
+            if name != drop:
+                self.write(name, di)
 
     def swap(self) -> None:
         """New storage generation with different content for every name."""
@@ -258,7 +271,7 @@ class Model:
         cur = st.cur.get(name)
         if cur is None:
             return {"notfound"}, None
-        if self.kind in ("fs", "fs2") and fault["kind"] in ("open", "getmtime"):
+        if self.kind in ("fs", "fs2", "choice-fs") and fault["kind"] in ("open", "getmtime"):
             fault["kind"] = None
             return {"oserror"}, None
         self._insert(key, st, name)
@@ -556,7 +569,7 @@ def run(tape) -> Outcome:
     size = SIZES[tape.draw(len(SIZES))]
     nnames = 2 + tape.draw(2)
     names = NAMES[:nnames]
-    faulty = kind in ("fs", "fs2") and tape.draw(4, "f") == 3
+    faulty = kind in ("fs", "fs2", "choice-fs") and tape.draw(4, "f") == 3
     nops = 4 + tape.draw(11)
 
     clock = F.SimClock()
@@ -586,7 +599,7 @@ def run(tape) -> Outcome:
     gc.disable()
     try:
         for i in range(nops):
-            k = tape.weighted([6, 2, 4, 2, 1, 1, 3, 1, 1, 1])
+            k = tape.weighted([6, 2, 4, 2, 1, 1, 3, 1, 1, 1, 1 if kind in ("dict", "prefix") else 0])
             if k in (0, 1):
                 ei = tape.draw(len(envs)) if len(envs) > 1 else 0
                 env, model = envs[ei], models[ei]
@@ -706,6 +719,15 @@ def run(tape) -> Outcome:
                 seen_current = {x for x in seen_current if x[0] != 1}
                 pending = {x for x in pending if x[0] != 1}
                 ops_dec.append(["new_overlay"])
+            elif k == 10:
+                # the loader keeps its identity (and so its cache entries) but its public ``mapping`` attribute is
+                # REPLACED by another dict: other content for some names, one name possibly gone
+                st.rebind(drop=tape.pick(names) if tape.draw(3) == 0 else None)
+                target = envs[0].loader if kind == "dict" else envs[0].loader.mapping["p"]
+                target.mapping = st.mapping
+                pending |= seen_current
+                seen_current = set()
+                ops_dec.append(["rebind_mapping"])
             else:
                 ei = tape.draw(len(envs)) if len(envs) > 1 else 0
                 if envs[ei].cache is not None:
